@@ -733,4 +733,17 @@ example : ∃ k σ'', ∀ m, k ≤ m → evalCall m σf [0] fvar [] (5, 1) = .ok
   exact ⟨k, _, hk⟩
 
 end examples
+/-! ## what `for` can walk, read off the source on every run
+
+`Gen.iterableKinds` is regenerated by tools/extract.py from the arms of the function that turns a value into `[key, value]`
+pairs (`value_to_pairs`). -/
+
+theorem iterable_kinds_as_documented : Gen.iterableKinds = [Kind.Str, Kind.List, Kind.Object] := by decide
+
+/-- the model walks exactly the kinds the source has an arm for: every other kind is "not iterable" (`some none`), and a
+    well-addressed value of a listed kind yields its pairs -/
+theorem model_iterables_are_the_source_kinds (σ : State) (v : Val) :
+    (toPairs σ v = some none ↔ Gen.iterableKinds.contains v.kind = false) := by
+  cases v <;> simp [toPairs, Val.kind, Gen.iterableKinds] <;> (try (split <;> simp))
+
 end Seed.C07
